@@ -27,7 +27,7 @@ UNDERFLOW = 1e-15   # gradient tensors below this magnitude are in float32's squ
 # from, as lifted from the pinned tree.  While both match, a disagreement between `advstep.fit` and the Fraction oracle
 # is a bug of this machinery (exit 2); after a source edit that changed a lifted file it is a broken tie (exit 1).
 PINNED_GEN_SHA256 = {"AdvProjection.lean": "238c40171dee892da779fa6c615ff5483a5b83c1d1eb2a7d8dc70b3fbbd0f26c", "AdvScheduleSrc.lean": "2a6782c3963fb6a11e55dd01c69785874c9377aa8b68efd6fe5be320e2bc5775",
-                     "AdvTrainStepSrc.lean": "a4d0cee7e5d7d5a1a191e54fde8ce0fa553975c593e8a234a98767c39f0683ae"}
+                     "AdvTrainStepSrc.lean": "cefa669fa6e1fefe837194c5593164707fcc237931452e7ebceea5938a844486"}
 # what `trainstep.applied` must print: buffers consistent, predictor applies combine(dLP/dW, dLA/dW), adversary applies dLA/dU
 WANT_APPLIED = "1 combine(1,0,0;0,1,0) 0,1,0"
 _GEN_STATE = {}
